@@ -14,6 +14,7 @@
 package conn
 
 import (
+	"encoding/binary"
 	"errors"
 	"fmt"
 	"net"
@@ -51,13 +52,32 @@ func (rb RemoteBitfields) unmarshalBinary(rbBytes map[string][]byte) error {
 		if err != nil {
 			return fmt.Errorf("peer id: %s", err)
 		}
-		bitfield := bitset.New(0)
-		if err := bitfield.UnmarshalBinary(bitfieldBytes); err != nil {
+		bitfield, err := unmarshalBitfield(bitfieldBytes)
+		if err != nil {
 			return err
 		}
 		rb[peerID] = bitfield
 	}
 	return nil
+}
+
+// unmarshalBitfield decodes a bitfield sent by a remote peer. The encoding starts
+// with the number of bits, and the decoder allocates that many bits before reading
+// any of them, so a length which the data cannot hold is refused first.
+func unmarshalBitfield(data []byte) (*bitset.BitSet, error) {
+	const headerSize = 8
+	if len(data) < headerSize {
+		return nil, errors.New("bitfield too short")
+	}
+	numBits := binary.BigEndian.Uint64(data)
+	if numBits > uint64(len(data)-headerSize)*8 {
+		return nil, fmt.Errorf("bitfield declares %d bits but holds %d bytes", numBits, len(data)-headerSize)
+	}
+	bitfield := bitset.New(0)
+	if err := bitfield.UnmarshalBinary(data); err != nil {
+		return nil, err
+	}
+	return bitfield, nil
 }
 
 // handshake contains the same fields as a protobuf bitfield message, but with
@@ -114,8 +134,8 @@ func handshakeFromP2PMessage(m *p2p.Message) (*handshake, error) {
 	if err != nil {
 		return nil, fmt.Errorf("name: %s", err)
 	}
-	bitfield := bitset.New(0)
-	if err := bitfield.UnmarshalBinary(bitfieldMsg.BitfieldBytes); err != nil {
+	bitfield, err := unmarshalBitfield(bitfieldMsg.BitfieldBytes)
+	if err != nil {
 		return nil, err
 	}
 	remoteBitfields := make(RemoteBitfields)
